@@ -30,11 +30,15 @@ func c13Config() world.Config {
 
 var c13Ratios = []int64{0, 8, 12, 33, 34, 50, 80, 100}
 
-func c13Run(env world.Env, tpb, decrease int64, rs [3]int64, prev int64, blocks int) mc.CaseResult {
+// start > 0: the run begins at that height (so that the heights it passes through change their number of digits).
+func c13Run(env world.Env, tpb, decrease int64, rs [3]int64, prev int64, blocks int, start int64) mc.CaseResult {
 	w := env.W()
 	k := w.App.MintKeeper
 	cr := mc.CaseResult{Class: "ok"}
 	ctx := env.Ctx()
+	if start > 0 {
+		ctx = ctx.WithBlockHeight(start)
+	}
 	params := k.GetParams(ctx)
 	params.TokensPerBlock, params.MintDecrease = tpb, decrease
 	params.StakerRatio, params.DevGrantsRatio, params.StorageProviderRatio = rs[0], rs[1], rs[2]
@@ -149,8 +153,20 @@ func c13Enum(thorough bool) mc.Enum {
 				e.Cases = append(e.Cases, mc.Case{Desc: fmt.Sprintf("tpb=%d|dec=%d|prev=%d|%d ratio triples|%d blocks", tpb, dec, prev, len(triples), blocks), Run: func(env world.Env) mc.CaseResult {
 					out := mc.CaseResult{Class: "ok"}
 					ea := env.(*world.EnvA)
-					for _, rs := range triples {
-						r := c13Run(ea.Fork(), tpb, dec, rs, prev, blocks)
+					type job struct {
+						rs    [3]int64
+						start int64
+					}
+					var jobs []job
+					for i, rs := range triples {
+						jobs = append(jobs, job{rs, 0})
+						if i%16 == 0 { // the same run across the heights 9 -> 10 -> 11 and 99 -> 100 -> 101
+							jobs = append(jobs, job{rs, 8}, job{rs, 98})
+						}
+					}
+					for _, j := range jobs {
+						rs := j.rs
+						r := c13Run(ea.Fork(), tpb, dec, rs, prev, blocks, j.start)
 						out.Count++
 						if r.Nontrivial {
 							out.NontrivialCount++
@@ -220,7 +236,7 @@ func init() {
 	CaseReplayers["C13/emission"] = func(r *mc.Run, c string) { r.ReplayCase(c13Enum(true), c) }
 	CaseReplayers["C13/whole-app"] = func(r *mc.Run, c string) { c13WholeApp(r) }
 	Props["C13"] = Prop{Level: "exploration", Run: func(r *mc.Run, tier string) {
-		r.Rules = append(r.Rules, "full product TokensPerBlock {0,1,2,3,5,10,100,4.2M} x MintDecrease {0,6,bpy/2,bpy,bpy+1,2bpy} x every ratio triple over {0,8,12,33,34,50,80,100} with sum<=100 x seeded previous emission {none,0,1,2,3,10} x 6 consecutive blocks (thorough: more values, 12 blocks) through the real jklmint.BeginBlocker on the real bank keeper; one evaluation = one (parameter set, seed) run; non-trivial = emission > 0 in some block")
+		r.Rules = append(r.Rules, "full product TokensPerBlock {0,1,2,3,5,10,100,4.2M} x MintDecrease {0,6,bpy/2,bpy,bpy+1,2bpy} x every ratio triple over {0,8,12,33,34,50,80,100} with sum<=100 x seeded previous emission {none,0,1,2,3,10} x 6 consecutive blocks (thorough: more values, 12 blocks), every 16th ratio triple also started at heights 8 and 98 (the run crosses 9->10->11 and 99->100->101) through the real jklmint.BeginBlocker on the real bank keeper; one evaluation = one (parameter set, seed) run; non-trivial = emission > 0 in some block")
 		r.Assumptions = append(r.Assumptions, "module seam for the per-account split (in the whole app the distribution module sweeps the fee collector in the same BeginBlock); whole-app blocks at the ABCI seam check supply growth only", "blocks per year 5,256,000")
 		r.AddEnum(c13Enum(tier == "thorough"), workers(), time.Time{})
 		c13WholeApp(r)
